@@ -36,6 +36,8 @@ def main():
     ap.add_argument("--checks", default="")
     ap.add_argument("--tier", default="quick")
     ap.add_argument("--seed", default="0")
+    ap.add_argument("--fast", action="store_true",
+                    help="pass --no-build to the checks (correspondence + oracle only; no lock, no Lean rebuild): regression runs")
     ap.add_argument("--recheck", action="store_true",
                     help="already confirmed at this /repo HEAD: apply the patch and run the checks only")
     a = ap.parse_args()
@@ -109,7 +111,7 @@ def main():
         for c in [c for c in a.checks.split(",") if c]:
             env = dict(os.environ, ACN_REPO=wt, VERIF_SEED=a.seed)
             t0 = time.time()
-            rc, out = sh([PY, "harness/check.py", c, "--tier", a.tier], cwd=VERIF, env=env, timeout=7200)
+            rc, out = sh([PY, "harness/check.py", c, "--tier", a.tier] + (["--no-build"] if a.fast else []), cwd=VERIF, env=env, timeout=7200)
             vio = [l for l in out.splitlines() if l.startswith("VIOLATION")]
             replay_kind = None
             if vio:
@@ -126,7 +128,8 @@ def main():
     finally:
         sh(["git", "-C", "/repo", "worktree", "remove", "--force", wt])
         # generated constants may have been rewritten from the mutated tree: restore from /repo
-        sh([PY, os.path.join(VERIF, "harness", "translate.py")])
+        if not a.fast:
+            sh([PY, os.path.join(VERIF, "harness", "translate.py")])
     dst = os.path.join(VERIF, "seeded", a.name)
     if meta.get("confirmed") and src != dst:
         shutil.move(src, dst)
